@@ -32,6 +32,8 @@ def harness_files():
         for f in sorted(files):
             if f.endswith(".go"):
                 rel = os.path.relpath(root, base)
+                if rel == "_root":
+                    rel = "."
                 out.append((rel, f, os.path.join(root, f)))
     return out
 
@@ -55,7 +57,7 @@ def overlay(native):
     for pkgdir, f, path in harness_files():
         if f.endswith("_test.go"):
             continue
-        ov[os.path.join(REPO, pkgdir, "zz_verif_" + f)] = path
+        ov[os.path.normpath(os.path.join(REPO, pkgdir, "zz_verif_" + f))] = path
     return ov
 
 
@@ -83,7 +85,7 @@ def run_gosym(workdir, programs, workers=None, samples=3, solver="z3", tag="run"
         "workers": workers or int(os.environ.get("VERIF_WORKERS", "0")) or (os.cpu_count() or 4),
         "solver": solver,
         "samples": samples,
-        "programs": [dict(pkg=MODULE + "/" + p["pkg"], harness=p["harness"], params=p.get("params") or {},
+        "programs": [dict(pkg=MODULE + ("" if p["pkg"] == "." else "/" + p["pkg"]), harness=p["harness"], params=p.get("params") or {},
                           max_steps=p.get("max_steps", 0), max_paths=p.get("max_paths", 0),
                           prefix=p.get("prefix"), single=p.get("single", False)) for p in programs],
     }
@@ -111,11 +113,11 @@ def native_replay(workdir, pkgdir, replay_paths, timeout=600):
         testsrc += "\t\t\"%s\": %s,\n" % (n, n)
     testsrc += "\t})\n}\n"
     os.makedirs(workdir, exist_ok=True)
-    tpath = os.path.join(workdir, "replay_%s_test.go" % pkgdir.replace("/", "_"))
+    tpath = os.path.join(workdir, "replay_%s_test.go" % pkgdir.replace("/", "_").replace(".", "root"))
     open(tpath, "w").write(testsrc)
     ov = overlay(True)
-    ov[os.path.join(REPO, pkgdir, "zz_verif_replay_test.go")] = tpath
-    ovp = os.path.join(workdir, "native_overlay_%s.json" % pkgdir.replace("/", "_"))
+    ov[os.path.normpath(os.path.join(REPO, pkgdir, "zz_verif_replay_test.go"))] = tpath
+    ovp = os.path.join(workdir, "native_overlay_%s.json" % pkgdir.replace("/", "_").replace(".", "root"))
     json.dump({"Replace": ov}, open(ovp, "w"), indent=1)
     env = dict(GOENV, VERIF_REPLAY=":".join(replay_paths))
     try:
